@@ -165,6 +165,19 @@ class Facts:
                         r = callee_of(c)
                         if r in self.fn_bodies:
                             CG[p].add(r)
+                        # formatting machinery: `{}` / `{:?}` / to_string() of a local type reach its Display / Debug impl
+                        full = c.get('resolved_full') or c.get('callee_full') or ''
+                        m = re.search(r'(new_display|new_debug|to_string)::<(.+)>$', full) or re.match(r'^<(.+) as std::string::(ToString)>::to_string$', full)
+                        if m:
+                            if m.lastindex == 2 and m.group(1) in ('new_display', 'new_debug', 'to_string'):
+                                kind, ty = m.group(1), m.group(2)
+                            else:
+                                kind, ty = 'to_string', m.group(1)
+                            ty = re.sub(r"^(&('\w+ )?(mut )?)+", '', ty.strip())
+                            for tr in (['std::fmt::Debug'] if kind == 'new_debug' else ['std::fmt::Display']):
+                                cand = '<%s as %s>::fmt' % (ty, tr)
+                                if cand in self.fn_bodies:
+                                    CG[p].add(cand)
                         for a in c['args']:
                             if 'const' in a and 'fn_path' in a['const'] and a['const']['fn_path'] in self.fn_bodies:
                                 CG[p].add(a['const']['fn_path'])
